@@ -191,7 +191,12 @@ impl Archive {
     /// Return the last completely-written band id, if any.
     pub async fn last_complete_band(&self) -> Result<Option<Band>> {
         for band_id in self.list_band_ids().await?.into_iter().rev() {
-            let b = Band::open(self, band_id).await?;
+            let b = match Band::open(self, band_id).await {
+                Ok(b) => b,
+                // A backup interrupted before writing the head leaves an empty band directory.
+                Err(Error::BandHeadMissing { .. }) => continue,
+                Err(err) => return Err(err),
+            };
             if b.is_closed().await? {
                 return Ok(Some(b));
             }
